@@ -32,8 +32,8 @@ func Run(t *testing.T, r *simcore.Run) {
 	}
 	cfg := Config{
 		Faulty:       arm >= 5,
-		Backend:      []int{backendFullNode, backendFullNode, backendNeutrino, backendOld}[tp.CfgDraw(4)],
-		RelayFloor:   []int64{253, 253, 500, 1000, 3000}[tp.CfgDraw(5)],
+		Backend:      []int{backendFullNode, backendFullNode, backendFullNode, backendNeutrino, backendOld}[tp.CfgDraw(5)],
+		RelayFloor:   []int64{253, 253, 253, 253, 500, 1000, 3000}[tp.CfgDraw(7)],
 		MaxRateVB:    []int64{1000, 100, 150, 333, 10000}[tp.CfgDraw(5)],
 		ChangeKind:   tp.CfgDraw(3),
 		MaxInputs:    []uint32{100, 3, 2}[tp.CfgDraw(3)],
@@ -43,6 +43,7 @@ func Run(t *testing.T, r *simcore.Run) {
 		StartHeight:  []int32{800_000, 700_000, 900_123}[tp.CfgDraw(3)],
 	}
 	cfg.StartAboveMax = tp.CfgDraw(16) == 15
+	cfg.InitialUtxos = tp.CfgDraw(4)
 	r.Arm = "sweeper/fault-free"
 	if cfg.Faulty {
 		r.Arm = "sweeper/faulty"
@@ -183,6 +184,13 @@ func (s *sim) run() {
 	must(w.pub.Start(s.beat()), "publisher start")
 	s.started = true
 	synctest.Wait()
+	for i := 0; i < cfg.InitialUtxos; i++ {
+		val := []int64{60_000, 2_500_000, 9_000}[i%3] + int64(i)
+		u := &simUtxo{idx: i, op: simOutPoint("utxo", i), value: val}
+		w.utxos = append(w.utxos, u)
+		w.utxoByOp[u.op] = u
+		r.Logf("wallet utxo u%d value=%d", i, val)
+	}
 
 	for w.step < cfg.Steps && r.Step() {
 		w.step++
@@ -302,13 +310,15 @@ func (s *sim) offer() {
 	h := w.height
 
 	var value int64
-	switch r.Draw(4) {
-	case 0:
+	switch r.Draw(8) {
+	case 0, 1, 2:
 		value = 20_000 + int64(r.Draw(200_000))
-	case 1:
-		value = 600 + int64(r.Draw(3_000))
-	case 2:
+	case 3, 4:
 		value = 1_000_000 + int64(r.Draw(9_000_000))
+	case 5:
+		value = 3_000 + int64(r.Draw(17_000))
+	case 6:
+		value = 600 + int64(r.Draw(3_000))
 	default:
 		value = 330 + int64(r.Draw(400))
 	}
@@ -316,15 +326,15 @@ func (s *sim) offer() {
 		value = 330
 	}
 	var budget int64
-	switch r.Draw(5) {
-	case 0:
+	switch b := r.Draw(20); {
+	case b < 7:
 		budget = value / 2
-	case 1:
+	case b < 13:
 		budget = value / int64(2+r.Draw(20))
-	case 2:
+	case b == 13:
 		// around the relay floor for a small transaction
 		budget = cfg.RelayFloor * int64(250+r.Draw(500)) / 1000
-	case 3:
+	case b < 16:
 		budget = value + int64(r.Draw(int(value)+1))
 	default:
 		budget = 1_000 + int64(r.Draw(50_000))
